@@ -764,3 +764,170 @@ func runEmptyFlushCase(cc *caseCtx) {
 }
 
 var _ = bytes.Equal
+
+// runStoreLeftoverCase: outputs of flushes that never committed stay in the family directory, the store
+// is closed and opened again, the file numbers of the leftovers are handed out again (the next file number
+// is only persisted with a committed edit log) and - in most cases - the cleanup at open could not list the
+// directory. The new flushes must produce exactly their own tables at those paths.
+func runStoreLeftoverCase(cc *caseCtx) {
+	rnd := cc.rnd
+	nCommitted := 1 + rnd.Intn(3)
+	nLeft := 1 + rnd.Intn(3)
+	nAfter := 1 + rnd.Intn(4)
+	cleanupFails := rnd.Intn(3) > 0
+	completeLeftover := rnd.Intn(2) == 0
+	levels := 2
+	cc.desc = map[string]interface{}{"committed_flushes": nCommitted, "uncommitted_flushes": nLeft, "flushes_after_reopen": nAfter,
+		"cleanup_at_open_cannot_list_dir": cleanupFails, "leftover_completed_as_table": completeLeftover}
+	fmt.Printf("CASE SL %d %v\n", cc.idx, cc.desc)
+	name := filepath.Join(cc.dir, fmt.Sprintf("store-left-%d", cc.idx))
+	defer os.RemoveAll(name)
+	famPath := filepath.Join(name, "f")
+	mgr := kv.GetStoreManager()
+	opened := false
+	defer func() {
+		if opened {
+			_ = mgr.CloseStore(name)
+		}
+	}()
+	open := func() (kv.Family, bool) {
+		store, err := mgr.CreateStore(name, kv.DefaultStoreOption())
+		if err != nil {
+			cc.fail("C15/store-open-error", "CreateStore(%s): %v", name, err)
+			return nil, false
+		}
+		opened = true
+		fam, err := store.CreateFamily("f", kv.FamilyOption{Merger: mergerName})
+		if err != nil {
+			cc.fail("C15/store-open-error", "CreateFamily: %v", err)
+			return nil, false
+		}
+		return fam, true
+	}
+	listSST := func() map[string]int64 {
+		out := map[string]int64{}
+		des, _ := os.ReadDir(famPath)
+		for _, de := range des {
+			if filepath.Ext(de.Name()) == ".sst" {
+				if fi, err := de.Info(); err == nil {
+					out[de.Name()] = fi.Size()
+				}
+			}
+		}
+		return out
+	}
+	model := &familyModel{values: map[uint32][]string{}}
+	genEntries := func(maxPer, maxSize int) []entry {
+		ks, _ := genKeys(rnd, maxPer, []string{"dense", "sparse", "runs", "boundary", "extremes"}[rnd.Intn(5)])
+		salt := rnd.Uint64()
+		es := make([]entry, len(ks))
+		for i, k := range ks {
+			es[i] = entry{k, fillValue(salt, k, 1+rnd.Intn(maxSize))}
+		}
+		return es
+	}
+	commit := func(fam kv.Family, es []entry, prefix string) (table.FileNumber, bool) {
+		num, _, ok := flushOne(cc, fam, levels, es, writeOpts{mode: writeModes[rnd.Intn(len(writeModes))], prefix: prefix}, false)
+		if ok {
+			model.files = append(model.files, fileModel{num, es})
+			for _, e := range es {
+				model.values[e.key] = append(model.values[e.key], string(e.value))
+			}
+		}
+		return num, ok
+	}
+	reissued := 0
+	var agg famStats
+	cc.guard("C15/panic-in-store", func() {
+		fam, ok := open()
+		if !ok {
+			return
+		}
+		for i := 0; i < nCommitted; i++ {
+			if _, ok := commit(fam, genEntries(60, 80), fmt.Sprintf("committed flush %d", i)); !ok {
+				return
+			}
+		}
+		before := listSST()
+		// flushes that never commit: big enough that bytes pass the 256 KiB write buffer and reach the file
+		for i := 0; i < nLeft; i++ {
+			fl := fam.NewFlusher()
+			for _, e := range genEntries(40, 40<<10) {
+				_ = fl.Add(e.key, e.value)
+			}
+			fl.Release()
+		}
+		var leftovers []string
+		for n := range listSST() {
+			if _, ok := before[n]; !ok {
+				leftovers = append(leftovers, n)
+			}
+		}
+		sort.Strings(leftovers)
+		if len(leftovers) != nLeft {
+			panic(fmt.Sprintf("harness: %d uncommitted flushers left %d files", nLeft, len(leftovers)))
+		}
+		if err := mgr.CloseStore(name); err != nil {
+			cc.fail("C15/store-close-error", "CloseStore: %v", err)
+		}
+		opened = false
+		if completeLeftover {
+			// the flush had closed its table but died before the edit log was committed: a complete, big table stays
+			for _, n := range leftovers {
+				d := version.ParseFileName(n)
+				b, err := table.NewStoreBuilder(d.FileNumber, filepath.Join(famPath, n))
+				if err != nil {
+					panic(err)
+				}
+				for _, e := range genEntries(300, 4<<10) {
+					_ = b.Add(e.key, e.value)
+				}
+				if err := b.Close(); err != nil {
+					panic(err)
+				}
+			}
+		}
+		left := listSST()
+		orig := kv.VerifGetSeams()
+		if cleanupFails {
+			kv.VerifSetSeams(kv.VerifSeams{ListDir: func(path string) ([]string, error) {
+				return nil, fmt.Errorf("c15: injected list error for %s", path)
+			}})
+		}
+		fam, ok = open()
+		kv.VerifSetSeams(kv.VerifSeams{ListDir: orig.ListDir})
+		if !ok {
+			return
+		}
+		cc.r.count("stores_reopened", 1)
+		for i := 0; i < nAfter; i++ {
+			present := listSST()
+			num, ok := commit(fam, genEntries(30, 60), fmt.Sprintf("flush %d after reopen", i))
+			if !ok {
+				return
+			}
+			fn := version.Table(num)
+			if sz, was := present[fn]; was {
+				if _, l := left[fn]; l {
+					reissued++
+					cc.r.count("flushes_into_reissued_file_number_over_leftover", 1)
+					if fi, err := os.Stat(filepath.Join(famPath, fn)); err == nil && fi.Size() < sz {
+						cc.r.count("flushes_over_longer_leftover", 1)
+					}
+				}
+			}
+		}
+		snap := fam.GetSnapshot()
+		agg = verifySnapshot(cc, snap, famPath, levels, model, "after flushes over leftovers")
+		snap.Close()
+	})
+	r := cc.r
+	r.eval(1)
+	r.count("store_leftover_cases", 1)
+	r.count("store_probes_present", agg.probesPresent)
+	r.count("store_probes_absent", agg.probesAbsent)
+	r.count("store_files_verified", agg.filesChecked)
+	if agg.ok && agg.probesPresent > 0 {
+		r.nontrivial("SL/" + hashKeyOf(cc.idx, nCommitted, nLeft, nAfter, cleanupFails, completeLeftover, reissued))
+	}
+}
